@@ -32,6 +32,15 @@ def scenarios(tier):
     # (c) builds that share a dependency / the same target
     L.append((SC.scn("db-shared-dep", w["shared"], ["redo-ifchange t1", "redo-ifchange t2"],
                      setup=[["ifchange", ["t1", "t2"]], ["edit", "s", "1"]], visible=VIS), 1 if q else 2))
+    # two parallel builds that each want, last, a target the other one starts with: each has a job of its own running (or
+    # just finished) when it finds the other's target locked -- nobody may block on a foreign lock while it still holds the
+    # lock of a finished job whose result is not recorded (deadlock; with real fcntl locks: EDEADLK, "a lock error")
+    from ..worlds import S, World
+    xw = World("crossed-lists", {"s": ["0", "1"]},
+               {"a.do": [S(deps=["s"])], "a2.do": [S(deps=["s"], out="file")], "b.do": [S(deps=["s"])], "b2.do": [S(deps=["s"], out="file")]},
+               ["a", "a2", "b", "b2"], ["a", "b"])
+    L.append((SC.scn("crossed-lists-j2", xw, ["redo --no-log -j2 a a2 b", "redo --no-log -j2 b b2 a"],
+                     visible=VIS + ["select", "tok-read", "tok-write", "select-order", "lock-wait", "unlock", "lock-try"]), 1 if q else 2))
     if not q:
         L.append((SC.scn("first-redo+redo", w["two"], ["redo --no-log x", "redo --no-log y"], visible=VIS), 2))
     return L
@@ -63,6 +72,9 @@ def expected_rows(scn):
 
 def oracle(scn, res):
     out = []
+    if res["verdict"] in ("done", "deadlock"):
+        from .c09 import holds_unrecorded_while_waiting
+        out += holds_unrecorded_while_waiting(scn, res)
     if res["verdict"] != "done":
         return out
     for n, rc in res["roots"].items():
